@@ -45,7 +45,14 @@ type DB struct {
 	YieldRead func(kind string)
 	// Committed counts write transactions whose commit has been applied.
 	Committed int
+	// Suspended > 0: calls made by the HARNESS itself (status queries while it decides which
+	// events are enabled) pass through uncounted and are never failed.
+	Suspended int
 }
+
+// Suspend / Resume bracket harness-own database use.
+func (d *DB) Suspend() { d.mu.Lock(); d.Suspended++; d.mu.Unlock() }
+func (d *DB) Resume()  { d.mu.Lock(); d.Suspended--; d.mu.Unlock() }
 
 func (d *DB) yield(kind string) {
 	if d.YieldRead != nil {
@@ -60,6 +67,9 @@ func Wrap(u mwdb.DB, p Plan) *DB { return &DB{U: u, Plan: p} }
 func (d *DB) gate(kind string) error {
 	d.mu.Lock()
 	defer d.mu.Unlock()
+	if d.Suspended > 0 {
+		return nil
+	}
 	i := d.Calls
 	d.Calls++
 	if d.KeepLog {
